@@ -18,6 +18,19 @@ S4  state carried between calls: PROGRAMS of many compiles / parses in ONE inter
     harness from the texts of its own rule's keys (an unbound name leaves the text uninterpreted, whatever an earlier rule /
     parse / grammar bound), safe_builtins() and the safe_context() dicts must be left unchanged, and the same program run
     in a shuffled order (second interpreter) must evaluate every constant to the same value
+Binding positions and objects with attributes (after seeded C17-m7): every attribute name (harmless / dunder / blocked) is
+    written in every syntactic position of an ast.Attribute - as a value AND as the binding target of a comprehension clause
+    (list / set / dict / generator, tuple / list / starred / nested patterns, second clause, f-string field and format spec,
+    subscript target), random compositions draw their comprehension targets from the same grammar - in a context holding
+    objects with writable attributes (instance with a __dict__, function, dict) and, through the parser, in grammars with a
+    sub-AST (p:pair).  S1 covers the verdict (directly and, through the parser, on the context the engine built); a new S2
+    oracle snapshots the state behind the dunder attributes of every object reachable from the context (class, identity and
+    dunder entries of __dict__, function internals) before / after each evaluation: it must not change.
+Alerts (after seeded C17-m9): alerts are parsed with parseinfo=True and the message recorded in parseinfo.alerts (the only
+    place where the value of an alert is observable) is what S3 compares with the extracted loop; texts in the str.format field
+    syntax (NAME.attr[key]!conv:spec rooted at bound / unbound names, dunder chains) are run as constants and alerts of every
+    level; a text for which no evaluation took place must come back as written; S4 compares the recorded alert messages with
+    what constant() returned.
 All code of /repo runs in fresh child interpreters (stdin detached, scratch directory, audit hook).
 """
 from __future__ import annotations
@@ -137,10 +150,20 @@ def _mkfn(name):
     return fn
 SHADOWFN_NAMES = ['open', 'eval', 'exec', 'compile', 'type', 'getattr', 'input', 'vars']
 FAKES = {n: _mkfn(n) for n in SHADOWFN_NAMES}
+def _mkobj():
+    # objects with writable attributes, as a semantic action may put them in the AST (fresh class / function per context)
+    class Box:
+        def __init__(self):
+            self.secret = 'kept'
+            self.x = ['x']
+    def greet(name='world'):
+        return 'hello ' + name
+    return {'o': Box(), 'greet': greet}
 CONTEXTS = {
     'shadow': lambda: SB | {'a': 'x', 'b': ['x', 'y'], 'p': 'probe.txt'} | {n: 'sh:' + n for n in SHADOW_NAMES + SHADOW_SAFE},
     'shadowfn': lambda: SB | {'a': 'x', 'b': ['x', 'y'], 'p': 'probe.txt'} | dict(FAKES),
     'const': lambda: SB | {'a': 'x', 'b': ['x', 'y'], 'len': 'shadow', 'type': 'shadowtype'},
+    'obj': lambda: SB | {'a': 'x', 'b': ['x', 'y'], 'd': {'k': 'v'}, 't': ('z',)} | _mkobj(),
     'fixed': lambda: {k: v for k, v in SB.items() if k not in DANGEROUS} | {'a': 'x', 'b': ['x', 'y']},
     'empty': lambda: {},
     'data': lambda: {'a': 'x', 'n': 3, 'abs': 'data'},
@@ -176,9 +199,9 @@ def ctxinfo(ctx):
     for k, v in ctx.items():
         rn = getattr(v, '__name__', None)
         cap = k if (k in vars(builtins) and vars(builtins)[k] is v) else None
-        if cap is None:
+        if cap is None and callable(v):
             for bk, bv in vars(builtins).items():
-                if bv is v and callable(v):
+                if bv is v:
                     cap = bk
         out.append([k, bool(callable(v)), rn == '<lambda>', rn if (callable(v) and rn) else None,
                     has_exc(v, set()), cap])
@@ -190,6 +213,82 @@ def short(v):
     except BaseException as e:
         r = '<repr raises %s>' % type(e).__name__
     return [type(v).__name__, r[:200]]
+
+def saferepr(v):
+    try:
+        return repr(v)[:120]
+    except BaseException as e:
+        return '<repr raises %s>' % type(e).__name__
+
+FUNC_DUNDERS = ('__defaults__', '__kwdefaults__', '__name__', '__qualname__', '__doc__', '__module__', '__annotations__')
+VB = vars(builtins)
+IMMUTABLE = (str, int, float, bool, bytes, type(None), complex)
+
+def reachable(ctx):
+    # the OBJECTS reachable from the context before the evaluation (a walrus may rebind a key: that is not a write)
+    objs, seen = [], set()
+    def walk(key, v, depth):
+        if type(v) in IMMUTABLE or id(v) in seen or depth > 3:
+            return
+        seen.add(id(v))
+        objs.append((key, v))
+        dct = getattr(v, '__dict__', None)
+        if isinstance(dct, dict) and not isinstance(v, type):
+            for x in list(dct.values()):
+                walk(key, x, depth + 1)
+        if isinstance(v, dict):
+            for x in list(v.values()):
+                walk(key, x, depth + 1)
+        elif isinstance(v, (list, tuple, set, frozenset)):
+            for x in list(v):
+                walk(key, x, depth + 1)
+    for k, v in list(ctx.items()):
+        if not (k in VB and VB[k] is v):
+            walk(k, v, 0)
+    return objs
+
+def own_state(v):
+    # dun: the state behind dunder attributes (class, identity of __dict__, dunder entries of __dict__, function internals);
+    # pla: the ordinary state (attributes, items)
+    dun, pla = ['class@%d' % id(type(v))], []
+    try:
+        dct = getattr(v, '__dict__', None)
+        if isinstance(dct, dict) and not isinstance(v, type):
+            dun.append('dict@%d' % id(dct))
+            for k in sorted(dct, key=str):
+                (dun if isinstance(k, str) and k.startswith('__') else pla).append('.%s=%s' % (k, saferepr(dct[k])))
+        if isinstance(v, type(saferepr)):
+            dun.extend('%s=%s' % (n, saferepr(getattr(v, n, None))) for n in FUNC_DUNDERS)
+            dun.append('code@%d' % id(v.__code__))
+        if isinstance(v, dict):
+            pla.append(saferepr(sorted(saferepr(i) for i in v.items())))
+        elif isinstance(v, (list, tuple, set, frozenset)):
+            pla.append(saferepr(v))
+    except BaseException as e:
+        dun.append('state raises ' + type(e).__name__)
+    return dun, pla
+
+def ctx_state(ctx, objs=None):
+    if objs is None:
+        objs = reachable(ctx)
+    return objs, [own_state(v) for _, v in objs]
+
+def state_diff(res, st0, ctx):
+    # which context entries had their dunder state / ordinary state written by the evaluation
+    global EVENTS
+    saved, EVENTS = EVENTS, None
+    try:
+        objs, before = st0
+        _, after = ctx_state(ctx, objs)
+        dw = sorted({k for (k, _), x, y in zip(objs, before, after) if x[0] != y[0]})
+        pw = sorted({k for (k, _), x, y in zip(objs, before, after) if x[1] != y[1]})
+        if dw:
+            res['dunder_write'] = dw
+            res['dunder_diff'] = [z for x, y in zip(before, after) for z in sorted(set(x[0]) ^ set(y[0]))][:8]
+        if pw:
+            res['plain_write'] = pw
+    finally:
+        EVENTS = saved
 
 def alarm(_s, _f):
     raise Hang('job timeout')
@@ -227,6 +326,7 @@ def run_direct(job):
         res['safe'] = 'raises:' + type(e).__name__
     if not job.get('eval'):
         return res
+    st0 = ctx_state(ctx)
     EVENTS = []
     signal.alarm(5)
     try:
@@ -234,6 +334,8 @@ def run_direct(job):
         res['outcome'] = 'value'
         res['value'] = short(v)
         signal.alarm(0)
+        state_diff(res, st0, ctx)
+        st0 = None
         res['ref'] = reference(expr, CONTEXTS[job['ctx']]())
     except Hang:
         res['outcome'] = 'timeout'
@@ -244,14 +346,18 @@ def run_direct(job):
         signal.alarm(0)
         res['events'] = EVENTS
         EVENTS = None
+        if st0 is not None:
+            state_diff(res, st0, ctx)
     return res
 
+SUBRULE = "\n pair = k:/\\w+/ '=' v:/\\w+/ ;"
 NMODELS = [0]
-def grammar_model(alert):
+def grammar_model(alert, sub=False):
     # a fresh model per job: tatsu.compile caches by (name, grammar) and a parsed model keeps state between parses
     NMODELS[0] += 1
-    g = "start = a:'x' ^`0` b:'y' $ ;" if alert else "start = a:'x' b:`0` $ ;"
-    return tatsu.compile(g, name='C17m%d' % NMODELS[0])
+    pp = ' p:pair' if sub else ''
+    g = ("start = a:'x'%s ^`0` b:'y' $ ;" % pp) if alert else ("start = a:'x'%s b:`0` $ ;" % pp)
+    return tatsu.compile(g + (SUBRULE if sub else ''), name='C17m%d' % NMODELS[0])
 
 def find_nodes(model, cls):
     from tatsu.peg import basic
@@ -311,14 +417,35 @@ def run_parse(job):
             res['keys_in_context'] = True
         r = saved[2](e, c)
         trace.append(['safe', e, bool(r)])
+        if job.get('model'):
+            # S1 through the parser: the verdict on the context the engine really built (sub-ASTs, parse information)
+            global EVENTS
+            ev, EVENTS = EVENTS, None
+            try:
+                ci = ctxinfo(c)
+            finally:
+                EVENTS = ev
+            infos = res.setdefault('ctxinfos', [])
+            if ci not in infos:
+                infos.append(ci)
+            res.setdefault('checks', []).append([e, bool(r), infos.index(ci)])
         return r
     def safe_eval(e, c):
         try:
             c0 = copy.deepcopy(c)
         except BaseException:
             c0 = None
+        st0 = ctx_state(c)
         try:
-            v = saved[3](e, c)
+            try:
+                v = saved[3](e, c)
+            finally:
+                sd = {}
+                state_diff(sd, st0, c)
+                if sd.get('dunder_write'):
+                    res.setdefault('dunder_write', []).append([e, sd['dunder_write'], sd['dunder_diff']])
+                if sd.get('plain_write'):
+                    res['plain_write'] = True
             if c0 is not None:
                 signal.alarm(0)
                 ref = reference(e, c0)
@@ -338,18 +465,23 @@ def run_parse(job):
             # keys: further AST keys (spelled like builtins) bound before the constant, each to the text 'k'
             keys = job.get('keys') or []
             kg = ''.join(" %s:'k'" % k for k in keys)
-            g = ("start = a:'x'%s %s%s%s%s b:'y' $ ;" % (kg, '^', tick, literal, tick)) if alert else \
+            if job.get('sub'):
+                # p: a sub-AST (an object with attributes, reachable through a name bound in the current AST)
+                kg = ' p:pair' + kg
+            g = ("start = a:'x'%s %s%s%s%s b:'y' $ ;" % (kg, '^' * int(job.get('level') or 1), tick, literal, tick)) if alert else \
                 ("start = a:'x'%s b:%s%s%s $ ;" % (kg, tick, literal, tick))
+            if job.get('sub'):
+                g += SUBRULE
             NMODELS[0] += 1
             model = tatsu.compile(g, name='C17t%d' % NMODELS[0])
-            text = 'x' + ' k' * len(keys) + (' y' if alert else '')
+            text = 'x' + (' k=v' if job.get('sub') else '') + ' k' * len(keys) + (' y' if alert else '')
             nodes = find_nodes(model, 'Alert' if alert else 'Constant')
             res['grammar_literal'] = nodes[0].literal if nodes else None
         else:
-            model = grammar_model(alert)
+            model = grammar_model(alert, bool(job.get('sub')))
             node = find_nodes(model, 'Alert' if alert else 'Constant')[0]
             node.literal = literal
-            text = 'x y' if alert else 'x'
+            text = 'x' + (' k=v' if job.get('sub') else '') + (' y' if alert else '')
     except BaseException as e:
         res['outcome'] = 'grammar-rejected:' + type(e).__name__
         return res
@@ -357,11 +489,16 @@ def run_parse(job):
     engine.trim, engine.stdlib_ast, engine.is_eval_safe, engine.safe_eval = trim, AstProxy(trace), is_eval_safe, safe_eval
     signal.alarm(20)
     try:
-        r = model.parse(text)
+        # an alert is observable only in the parse information of the result: parseinfo=True, read parseinfo.alerts
+        r = model.parse(text, parseinfo=True) if alert else model.parse(text)
         res['outcome'] = 'value'
         res['ast_keys'] = sorted(r) if hasattr(r, 'keys') else None
         if alert:
             res['value'] = ['alert-ok', repr(dict(r))[:200]]
+            pi = getattr(r, 'parseinfo', None)
+            al = getattr(pi, 'alerts', None)
+            if al is not None:
+                res['alerts'] = [[a.level, ['str', a.message] if isinstance(a.message, str) else short(a.message)] for a in al]
         else:
             v = r['b']
             res['value'] = ['str', v] if isinstance(v, str) else short(v)
@@ -454,9 +591,22 @@ def run_seq(job):
         rec['res'] = ['str', v] if isinstance(v, str) else canon(short(v))
         return v
 
+    # the message an alert records (the only place where the value of an alert expression is observable)
+    from tatsu.contexts import state as tstate
+    orig_salert = tstate.ParseStateStack.alert
+    alerts = [None]
+
+    def salert(self, *a, **k):
+        al = orig_salert(self, *a, **k)
+        if alerts[0] is not None:
+            m = getattr(al, 'message', None)
+            alerts[0].append(['str', m] if isinstance(m, str) else canon(short(m)))
+        return al
+
     orig_alias = engine.ParserEngine._constant
     engine.ParserEngine.constant = engine.ParserEngine._constant = constant
     engine.is_eval_safe, engine.safe_eval = is_eval_safe, safe_eval
+    tstate.ParseStateStack.alert = salert
     try:
         for st in job['steps']:
             res = {'id': st['id']}
@@ -476,6 +626,7 @@ def run_seq(job):
                     sems[sid] = SeqSemantics(st['sem']['names'])
                 sem = sems[sid]
             calls[0] = res['calls'] = []
+            alerts[0] = res['alerts'] = []
             EVENTS = []
             signal.alarm(20)
             try:
@@ -500,6 +651,7 @@ def run_seq(job):
                 res['events'] = EVENTS
                 EVENTS = None
                 calls[0] = None
+                alerts[0] = None
                 cur[0] = None
             now = safeeval.safe_builtins()
             sb = {'added': sorted(k for k in now if k not in PR), 'removed': sorted(k for k in PR if k not in now),
@@ -515,6 +667,7 @@ def run_seq(job):
         engine.ParserEngine.constant = orig_constant
         engine.ParserEngine._constant = orig_alias
         engine.is_eval_safe, engine.safe_eval = saved
+        tstate.ParseStateStack.alert = orig_salert
     return {'steps': out}
 
 DANGEROUS = json.load(open(jobs_path))['dangerous']
@@ -669,6 +822,62 @@ def name_templates(n: str, scratch: str) -> list[str]:
     return out + special.get(n, [])
 
 
+# attributes written in BINDING positions: the target of a comprehension clause may be an attribute reference, a subscript,
+# or a tuple / list / starred pattern containing them, and Python assigns to it on every iteration
+TARGET_ATTRS = ['__dict__', '__class__', '__doc__', '__defaults__', '__kwdefaults__', '__frozen__', '__code__', '__name__',
+                '__x', '__', 'secret', 'x', '_x', 'x__', 'upper']
+
+
+def position_templates(A: str, o: str = 'o') -> tuple[list[str], list[str]]:
+    """the attribute A of an object bound in the context (o: an instance with a __dict__, greet: a function, d: a dict,
+    a: a str, b: a list) in every syntactic position an ast.Attribute can take -> (binding positions, reading positions).
+    Binding: target of a list / set / dict comprehension and of a generator expression, inside tuple / list / starred /
+    nested patterns, in a second clause, with a condition, inside f-string fields and format specs, inner and outer link of a
+    chain, under a subscript target, inside lambdas / defaults / nested comprehensions.  Reading: slices, keyword values,
+    star arguments, comparison chains, format specs, dict keys, conditions, walrus values, iterables and conditions of
+    comprehensions, call targets."""
+    store = [
+        f'[0 for {o}.{A} in [d]]', f'{{0 for {o}.{A} in [d]}}', f'{{0: 0 for {o}.{A} in [d]}}', f'sorted(0 for {o}.{A} in [d])',
+        f'next(0 for {o}.{A} in [d])', f'[0 for ({o}.secret, {o}.{A}) in [b]]', f'[0 for [{o}.secret, *{o}.{A}] in [b]]',
+        f'[0 for *{o}.{A}, a in [b]]', f'[0 for a in b for {o}.{A} in [d]]', f'[0 for {o}.{A} in [d] if a]',
+        f"f'{{[0 for {o}.{A} in [d]]}}'", f"f'{{a:{{[0 for {o}.{A} in [d]]}}}}'", f'[0 for {o}.{A}.x in [d]]',
+        f'[0 for {o}.x.{A} in [d]]', f'[0 for greet.{A} in [t]]', f'[0 for d[{o}.{A}] in b]', f'[0 for {o}.{A}[0] in b]',
+        f'max(b, key=lambda a: [0 for {o}.{A} in [d]])', f'[[0 for {o}.{A} in [d]] for a in b]',
+        f'[0 for a in [0 for {o}.{A} in [d]]]', f'(lambda a=[0 for {o}.{A} in [d]]: a)', f'[0 for (({o}.{A},),) in [[[d]]]]',
+        f'[({o}.secret, 0) for {o}.{A} in [d]][0]', f'[0 for a.{A} in b]', f'[0 for b[0].{A} in [d]]',
+        f'[0 for greet.{A} in [d]]', f'{{a: 0 for a, {o}.{A} in [b]}}',
+    ]
+    load = [
+        f'{o}.{A}', f'b[{o}.{A}:]', f'greet(name={o}.{A})', f'[*{o}.{A}]', f'{{**{o}.{A}}}', f'a < {o}.{A} < a',
+        f"f'{{a!r:{{{o}.{A}}}}}'", f'(a, {o}.{A})[1]', f'{{{o}.{A}: 1}}', f'not {o}.{A}', f'a if {o}.{A} else a',
+        f'(lambda: {o}.{A})', f'(zq := {o}.{A})', f'[a for a in {o}.{A}]', f'[a for a in b if {o}.{A}]', f'greet(*{o}.{A})',
+        f'greet(**{o}.{A})', f'{o}.{A}(a)', f'{o}.{A}.x', f'greet.{A}', f'-{o}.{A}', f'b[{o}.{A}]', f'{o}.{A} @ a',
+        f'sorted(b, key=lambda a: {o}.{A})', f'next(a for a in b if {o}.{A})',
+    ]
+    return store, load
+
+
+def target_kinds(expr: str) -> list[str]:
+    """kinds of the non-name nodes in binding (Store / Del) position"""
+    try:
+        t = ast.parse(expr, mode='eval')
+    except (ValueError, SyntaxError):
+        return []
+    return sorted({type(n).__name__ for n in ast.walk(t)
+                   if isinstance(n, (ast.Attribute, ast.Subscript)) and not isinstance(n.ctx, ast.Load)})
+
+
+def dunder_position(expr: str, blocked=()) -> str:
+    """where the expression spells a dunder / blocked attribute: as a binding target, as a value, or nowhere"""
+    try:
+        t = ast.parse(expr, mode='eval')
+    except (ValueError, SyntaxError):
+        return 'unparsable'
+    k = sorted({'read' if isinstance(n.ctx, ast.Load) else 'target' for n in ast.walk(t)
+                if isinstance(n, ast.Attribute) and (n.attr.startswith('__') or n.attr in blocked)})
+    return '+'.join(k) or 'no-dunder-syntax'
+
+
 FIXED_EXPRS = [
     '', ' ', '1', "'x'", 'None', 'a', 'b', 'nope', 'a +', '(', 'a.upper()', 'a.upper().lower()', 'a.__class__',
     'a.__class__.__mro__', 'a._x', 'a.__x', 'a.x__', 'a.__', 'a.___', 'a._', "a.upper().__len__()", 'b[0]', 'b[0].upper()',
@@ -711,6 +920,20 @@ ESCAPES = [
 ]
 
 
+def gen_target(rng, names, sub, depth=2):
+    """a binding target: a name, an attribute reference, a subscript, a tuple / list / starred pattern of them"""
+    r = rng.random()
+    if depth <= 0 or r < 0.5:
+        return rng.choice(names)
+    if r < 0.78:
+        base = rng.choice(names) if rng.random() < 0.7 else f'{rng.choice(names)}.{rng.choice(ATTR_POOL)}'
+        return f'{base}.{rng.choice(ATTR_POOL)}'
+    if r < 0.86:
+        return f'{rng.choice(names)}[{sub()}]'
+    t1, t2 = gen_target(rng, names, sub, depth - 1), gen_target(rng, names, sub, depth - 1)
+    return rng.choice(['({}, {})', '[{}, {}]', '({}, *{})', '[*{}, {}]']).format(t1, t2)
+
+
 def gen_random_expr(rng, depth, names, nested=0.0):
     r = rng.random()
     if depth <= 0 or r < 0.25:
@@ -725,8 +948,9 @@ def gen_random_expr(rng, depth, names, nested=0.0):
         body = sub()
         return rng.choice(['next({b} for {v} in [{s}])', 'max([{s}], key=lambda {v}: {b})', 'sorted([{s}], key=lambda {v}: {b})',
                            'next({v} for {v} in [{s}] if {b})', 'any({b} for {v} in [{s}])', '[{b} for {v} in [{s}]]',
-                           'min([{s}], key=lambda {v}, {w}={w}: {b})', 'next(({b})({v}) for {v} in [{s}])'
-                           ]).format(b=body, v=v, s=sub(), w=rng.choice(names))
+                           'min([{s}], key=lambda {v}, {w}={w}: {b})', 'next(({b})({v}) for {v} in [{s}])',
+                           'next({b} for {t} in [{s}])', '[{b} for {v} in [{s}] for {t} in [{s}]]', '{{0: {b} for {t} in [{s}]}}'
+                           ]).format(b=body, v=v, s=sub(), w=rng.choice(names), t=gen_target(rng, names, sub))
     if r < 0.42:
         return f'{sub()}.{rng.choice(ATTR_POOL)}'
     if r < 0.62:
@@ -744,9 +968,13 @@ def gen_random_expr(rng, depth, names, nested=0.0):
         q = rng.choice(names)
         return f'(lambda {p}, {q}={q}: {sub()})'
     if r < 0.89:
-        t = rng.choice(names)
-        kind = rng.choice(['[{} for {} in {}]', '({} for {} in {})', '{{{} for {} in {}}}'])
-        return kind.format(sub(), t, sub())
+        t = gen_target(rng, names, sub)
+        kind = rng.choice(['[{} for {} in {}]', '({} for {} in {})', '{{{} for {} in {}}}', '{{0: {} for {} in {}}}',
+                           '[{} for {} in {} if a]', 'sorted({} for {} in {})'])
+        e = kind.format(sub(), t, sub())
+        if rng.random() < 0.2:
+            e = e[:-1] + f' for {gen_target(rng, names, sub)} in {sub()}' + e[-1]
+        return e
     if r < 0.93:
         return "f'{" + sub().replace("'", '"') + "}'" if "'" not in sub() else f'({sub()})'
     if r < 0.96:
@@ -872,6 +1100,19 @@ def run_checker_and_eval(chk: Check, mr: ModelRun, info: dict, scratch: Path, re
         if n in shadowfn_keys:
             for e in nt:
                 cases.append(('shadowfn', e, True))
+    # every attribute name (harmless, dunder, blocked by the checker) in every syntactic position of an ast.Attribute,
+    # binding positions included, on objects that do have writable attributes (context 'obj')
+    blocked = list(chk.extra.get('checker_blocked_attrs') or [])
+    sweep = list(dict.fromkeys(TARGET_ATTRS + ATTR_POOL + blocked))
+    for A in sweep:
+        store, load = position_templates(A)
+        if chk.quick and A not in TARGET_ATTRS:
+            k = 12 if (A.startswith('__') or A in blocked) else 6
+            store, load = store[:1] + rng.sample(store[1:], k), rng.sample(load, k // 2)
+        for e in store + load:
+            cases.append(('obj', e, True))
+        for e in rng.sample(store, 2):
+            cases.append((rng.choice(['const', 'data', 'shadow', 'alias']), e.replace('o.', 'a.').replace('greet.', 'b.'), True))
     names = ['a', 'b', 'abs', 'len', 'max', 'next', 'iter', 'open', 'eval', 'exec', 'nope', 'type', 'print', 'sorted',
              'getattr', 'exit', 'x', 'format', 'repr', 'input', 'compile', 'help', 'delattr', 'hash', '__import__']
     nrand = 2500 if chk.quick else 40000
@@ -885,6 +1126,11 @@ def run_checker_and_eval(chk: Check, mr: ModelRun, info: dict, scratch: Path, re
     for _ in range(nrand // 3):
         e = gen_random_expr(rng, rng.randint(2, 4), snames, nested=0.45)
         cases.append((rng.choice(['shadow', 'shadow', 'shadowfn', 'const']), e, True))
+    # random compositions over the objects with writable attributes
+    onames = ['a', 'b', 'o', 'd', 't', 'greet', 'o', 'len', 'max', 'sorted', 'next', 'nope']
+    for _ in range(nrand // 4):
+        e = gen_random_expr(rng, rng.randint(2, 4), onames, nested=0.3)
+        cases.append(('obj', e, True))
     seen = set()
     uniq = []
     for c in cases:
@@ -903,6 +1149,7 @@ def run_checker_and_eval(chk: Check, mr: ModelRun, info: dict, scratch: Path, re
     bad_s1 = 0
     n_acc = 0
     n_ref_bad = 0
+    n_dw = 0
     unexplained = 0
     for i, ((c, e, ev), t, rep, mc) in enumerate(zip(cases, trees, replies, m_check)):
         if 'error' in rep:
@@ -924,9 +1171,32 @@ def run_checker_and_eval(chk: Check, mr: ModelRun, info: dict, scratch: Path, re
             shape = 'unparsable' if t2 is None else type(ast.parse(small, mode='eval').body).__name__
             chk.violation(f'corr:check:{shape}', f'is_eval_safe({small!r}) = {real_safe} in context {c!r}, the model says {model_safe}',
                           {'correspondence': 'S1', 'context': c, 'expr': small, 'impl': real_safe, 'model': model_safe})
+        tk = target_kinds(e) if t is not None else []
+        if tk:
+            for k in tk:
+                chk.count('S1.binding_target.' + k)
+            if real_safe is True:
+                chk.count('S1.binding_target.accepted')
         if not ev:
             continue
         chk.count('S2.direct')
+        # ---- oracle: evaluation never writes the state behind dunder attributes of the objects of the context
+        if tk and rep.get('outcome') == 'value':
+            chk.count('S2.binding_target.evaluated')
+        if rep.get('plain_write'):
+            chk.count('S2.context_object_written_by_accepted_expression')
+        if rep.get('dunder_write'):
+            n_dw += 1
+
+            def bad(s, c=c):
+                return bool(run_child([{'kind': 'direct', 'ctx': c, 'expr': s, 'eval': True}], scratch)[0].get('dunder_write'))
+            small = shrink_expr(e, bad) if n_dw <= 2 else e
+            chk.violation(f'escape:dunder-write:{dunder_position(small, blocked)}',
+                          f'evaluating {small!r} in context {c!r} changed the state behind the dunder attributes of the context '
+                          f'entries {rep["dunder_write"]} (class, __dict__, dunder entries of __dict__, function internals): '
+                          f'{rep.get("dunder_diff")}',
+                          {'oracle': 'S2 dunder state of context objects', 'context': c, 'expr': small, 'original': e,
+                           'entries': rep['dunder_write'], 'diff': rep.get('dunder_diff'), 'accepted': real_safe})
         observed = classify_events(rep.get('events', []))
         if real_safe is not True:
             # rejected: safe_eval must raise SecurityError before evaluating anything
@@ -1015,6 +1285,13 @@ def run_checker_and_eval(chk: Check, mr: ModelRun, info: dict, scratch: Path, re
                    n_ref_bad == 0 and chk.dist.get('S2.ref.compared.nested_scope', 0) > 50,
                    f"{n_ref_bad} difference(s) over {chk.dist.get('S2.ref.compared', 0)} compared values "
                    f"({chk.dist.get('S2.ref.compared.nested_scope', 0)} with a nested scope)")
+    chk.obligation('S2:evaluation leaves the state behind dunder attributes of context objects alone (attributes in binding '
+                   'positions included)', 'oracle',
+                   n_dw == 0 and chk.dist.get('S2.binding_target.evaluated', 0) >= 100
+                   and chk.dist.get('S1.binding_target.Attribute', 0) >= 300,
+                   f"{n_dw} write(s); {chk.dist.get('S1.binding_target.Attribute', 0)} expressions with an attribute target, "
+                   f"{chk.dist.get('S1.binding_target.accepted', 0)} accepted, {chk.dist.get('S2.binding_target.evaluated', 0)} "
+                   f"evaluated to a value, {chk.dist.get('S2.context_object_written_by_accepted_expression', 0)} wrote ordinary state")
     chk.count('S2.accepted_and_evaluated', n_acc)
     chk.sample({'S1': cases[5][1], 'ctx': cases[5][0], 'impl': replies[5]['safe'], 'model': m_check[5] == '1'})
     return cases, replies
@@ -1029,6 +1306,33 @@ LOOP_LITERALS = [
     '{a:>3}', '{len(a)}', "{'a'}", "{'{a}'}", 'a + a', "'a' 'b'", '1_0', '0x10', '1e3', '...', 'Ellipsis', "f'{a}'",
     '{a}.upper()', "'{a}'.upper()", 'a.upper', 'abs', '{abs}', '[a]', '(a, a)', '{"k": a}', 'a if a else a', '\t{nope}',
 ]
+
+
+# texts in the str.format field syntax: NAME followed by .attr / [key] chains, optional !conversion and :spec.  Inside a
+# constant or alert they are f-string fields for the sandbox; when the sandbox rejects one (dunder, unbound name) the whole
+# text must come back as written - nothing may interpret the fields it could resolve
+FIELD_ROOTS = ['a', 'a', 'p', 'p', 'nope', 'kind', 'b']
+FIELD_CHAINS = ['', '', '.__class__', '.__class__.__mro__', '.__class__.__name__', '[0]', '.upper', '.nope', '.__doc__', '.real',
+                '.__class__.__init__.__globals__[__name__]', '.__class__.__init__.__globals__[__builtins__][open]', '[k]', '.k',
+                '.v.__class__', '[k].__class__', '.__dict__', '.__init__.__globals__', '.gi_frame', '.format', '[__class__]',
+                '.parseinfo', '.__len__', '.k.__class__.__name__', '[v][0]', '.__frozen__', '.upper()', '.k.upper()']
+FIELD_CONV = ['', '', '', '!r', '!s', '!a']
+FIELD_SPEC = ['', '', '', '', ':>12', ':<3', ':{a}', ':{a.__doc__}', ':{nope}', ':^5']
+FIELD_FRAMES = ['{F}', '{F}', 'seen {a}: {F}', '{F} {G}', '{F}{G}', 'seen {a}, expected {G}', '{F} and {a}', '"{F}"', '{F}: {p.k}',
+                '{{F}} {F}', 'x {F} y {G} z', '{a}{F}']
+
+
+def field_literals(rng, n: int) -> list[str]:
+    def field():
+        return '{' + rng.choice(FIELD_ROOTS) + rng.choice(FIELD_CHAINS) + rng.choice(FIELD_CONV) + rng.choice(FIELD_SPEC) + '}'
+    fixed = ['{a.__class__}', 'seen {a}: {a.__class__.__mro__}', '{p.__class__.__init__.__globals__[__name__]}',
+             '{p[k].__class__.__name__:>12}', '{a!r:{a.__doc__}}', 'seen {a}, expected {kind}', '{kind.__class__} {p.__dict__}',
+             '{p.k}', 'seen {a}', '{p.k.upper()}{len(p.v)}', '{a}{nope}', '{nope.k} {a}']
+    out = list(fixed)
+    while len(out) < n:
+        fr = rng.choice(FIELD_FRAMES)
+        out.append(fr.replace('{F}', field()).replace('{G}', field()))
+    return list(dict.fromkeys(out))
 
 
 def run_parser(chk: Check, mr: ModelRun, scratch: Path, real_leaks: set):
@@ -1061,6 +1365,28 @@ def run_parser(chk: Check, mr: ModelRun, scratch: Path, real_leaks: set):
             jobs.append({'kind': 'parse', 'literal': lit, 'via': 'text', 'alert': rng.random() < 0.3, 'keys': [kn]})
     jobs.append({'kind': 'parse', 'literal': 'next((open, eval, type) for a in a)', 'via': 'text', 'alert': False,
                  'keys': ['open', 'eval', 'type']})
+    n_plain_jobs = len(jobs)
+    # grammars with a sub-AST (p:pair - an object with attributes reachable through a name bound in the current AST):
+    # (1) attributes of it in binding and reading positions, (2) texts in the format-field syntax rooted at bound and
+    # unbound names, as constants and as alerts of every level; the verdict of is_eval_safe on the context the engine
+    # built goes to the model (S1 through the parser), the recorded alert message to the loop correspondence
+    pattrs = ['__frozen__', '__dict__', '__class__', '__doc__', '__parseinfo__', 'gi_frame', 'k', 'zz']
+    pshapes = ['[0 for p.{A} in [0]]', '{{0: 0 for p.{A} in [a]}}', '[0 for [a, *p.{A}] in [a]]', '{{[0 for p.{A} in [0]]}}',
+               'next(0 for p.{A} in [0])', '{{a:{{[0 for p.{A} in [0]]}}}}', 'p.{A}', '{{p.{A}}}', '[0 for a in a for p.{A} in [0]]',
+               '[0 for p.v.{A} in [0]]', '[0 for p[p.{A}] in [0]]', 'sorted(0 for (a, p.{A}) in [a + a])']
+    for A in pattrs:
+        for sh in (pshapes if not chk.quick else pshapes[:1] + rng.sample(pshapes[1:], 5)):
+            jobs.append({'kind': 'parse', 'literal': sh.format(A=A), 'via': 'text', 'alert': rng.random() < 0.35, 'sub': True,
+                         'model': True, 'level': rng.randint(1, 3)})
+    for l in field_literals(rng, 70 if chk.quick else 600):
+        jobs.append({'kind': 'parse', 'literal': l, 'via': 'text', 'alert': True, 'sub': True, 'model': True,
+                     'level': rng.randint(1, 3)})
+        r = rng.random()
+        if r < 0.4:
+            jobs.append({'kind': 'parse', 'literal': l, 'via': 'text', 'alert': False, 'sub': True, 'model': True})
+        elif r < 0.6:
+            jobs.append({'kind': 'parse', 'literal': rng.choice(['', ' ', '\n  ']) + l + rng.choice(['', ' ', '\n']), 'via': 'patch',
+                         'alert': rng.random() < 0.7, 'sub': True, 'model': True})
     replies = run_child(jobs, scratch)
     n_keys = sum(1 for j, r in zip(jobs, replies) if j.get('keys') and r.get('keys_in_context'))
     n_refdiff = 0
@@ -1125,6 +1451,10 @@ def run_parser(chk: Check, mr: ModelRun, scratch: Path, real_leaks: set):
         idx.append((j, weird, objs))
     mreps = mr.ask(reqs)
     bad = 0
+    n_alert_cmp = 0
+    n_alert_bad = 0
+    n_rejected_text = 0
+    n_interp = 0
     for (j, weird, objs), mrep in zip(idx, mreps):
         job, rep = jobs[j], replies[j]
         lit = job['literal']
@@ -1162,9 +1492,14 @@ def run_parser(chk: Check, mr: ModelRun, scratch: Path, real_leaks: set):
             else:
                 realc = ('value', 'obj', objs.get(json.dumps(rv), -1))
         elif real == 'value':
-            realc = 'alert-value'
-            if isinstance(model, tuple):
-                model = 'alert-value'
+            # the value of an alert expression is the message recorded in the parse information of the result
+            al = rep.get('alerts')
+            if al is None or len(al) != 1 or al[0][0] != int(job.get('level') or 1):
+                realc = ('alerts-recorded', json.dumps(al))
+            else:
+                n_alert_cmp += 1
+                rv = al[0][1]
+                realc = ('value', 'str', rv[1]) if rv[0] == 'str' else ('value', 'obj', objs.get(json.dumps(rv), -1))
         elif weird and real.startswith('raises:'):
             realc = model     # literal_eval raised something else than ValueError/SyntaxError: outside the model (reported above)
         else:
@@ -1179,9 +1514,42 @@ def run_parser(chk: Check, mr: ModelRun, scratch: Path, real_leaks: set):
                 r_calls.append(('E' if arg == cur else 'F', cur))
         if realc != model or (m_calls != r_calls and not weird and real != 'hang'):
             bad += 1
-            chk.violation('corr:loop', f'ParseContext.constant differs from the model on the literal {lit!r}',
+            sig = 'corr:loop'
+            what = f'ParseContext.constant differs from the model on the literal {lit!r}'
+            if job['alert'] and real == 'value' and m_calls == r_calls:
+                n_alert_bad += 1
+                sig = 'corr:loop:alert-message' if realc[0] == 'value' else 'corr:loop:alert-not-recorded'
+                what = (f'the alert {"^" * int(job.get("level") or 1)}`{lit}` records {rep.get("alerts")} in parseinfo.alerts, the '
+                        f'interpolation loop (same evaluator calls) yields {model}')
+            chk.violation(sig, what,
                           {'correspondence': 'S3', 'literal': lit, 'alert': job['alert'], 'via': job['via'], 'impl': realc,
-                           'model': model, 'impl_calls': r_calls, 'model_calls': m_calls})
+                           'model': model, 'impl_calls': r_calls, 'model_calls': m_calls, 'sub_ast': bool(job.get('sub')),
+                           'level': job.get('level')})
+        # ---- oracle on the implementation: nothing evaluated (every attempt rejected, not a literal) => the text as written
+        trims = [res for kind, arg, res in rep['trace'] if kind == 'trim']
+        evaluated = any(kind == 'eval' or (kind == 'lit' and res is not None) for kind, arg, res in rep['trace'])
+        if real == 'value' and trims and not evaluated:
+            n_rejected_text += 1
+            if '{' in lit:
+                chk.count('S3.rejected_text_with_fields.' + ('alert' if job['alert'] else 'constant'))
+            if job['alert']:
+                got = [m for _, m in rep.get('alerts') or []]
+            else:
+                got = [rep['value']]
+            if got != [['str', trims[-1]]]:
+                n_interp += 1
+                chk.violation(f"oracle:rejected-interpreted:{'alert' if job['alert'] else 'constant'}:"
+                              f"{'format-fields' if '{' in lit else 'plain'}",
+                              f"the {'alert' if job['alert'] else 'constant'} `{lit}` was rejected by the sandbox (no evaluation took "
+                              f'place) but its result is {got}, not the text as written',
+                              {'oracle': 'S3 rejected text', 'literal': lit, 'alert': job['alert'], 'via': job['via'],
+                               'result': got, 'expected': trims[-1], 'sub_ast': bool(job.get('sub'))})
+        for e, wr, diff in rep.get('dunder_write', []):
+            chk.violation(f'escape:dunder-write:parser:{dunder_position(e)}',
+                          f'the constant {lit!r} evaluates {e!r}, which changed the state behind the dunder attributes of the AST '
+                          f'entries {wr}: {diff}',
+                          {'oracle': 'S2 parser dunder state', 'literal': lit, 'alert': job['alert'], 'via': job['via'],
+                           'evaluated': e, 'entries': wr, 'diff': diff})
         # every evaluation was allowed
         allowed = {}
         for kind, arg, res in rep['trace']:
@@ -1206,6 +1574,34 @@ def run_parser(chk: Check, mr: ModelRun, scratch: Path, real_leaks: set):
                               {'oracle': 'S2 parser', 'literal': lit, 'alert': job['alert'], 'event': evn})
     chk.obligation('S3:ParseContext.constant vs the extracted loop on recorded oracle tables', 'correspondence',
                    bad == 0 and len(idx) >= len(lits), f'{bad} disagreement(s) over {len(idx)} compared runs')
+    chk.obligation('S3:the message an alert records (parseinfo.alerts) = the value of the extracted loop', 'correspondence',
+                   n_alert_bad == 0 and n_alert_cmp >= 100, f'{n_alert_bad} disagreement(s) over {n_alert_cmp} recorded alert messages')
+    nf = chk.dist.get('S3.rejected_text_with_fields.alert', 0)
+    chk.obligation('S3:a text the sandbox rejects comes back as written (constants and alerts, format-field syntax)', 'oracle',
+                   n_interp == 0 and nf >= 30, f'{n_interp} interpreted; {n_rejected_text} rejected texts, {nf} alerts with fields')
+    # ---- S1 through the parser: is_eval_safe on the contexts the engine built (sub-AST, parse information) vs the model
+    creqs, cidx = [], []
+    for j, (job, rep) in enumerate(zip(jobs, replies)):
+        for e, verdict, ci in rep.get('checks', []):
+            creqs.append(f"(check {ctx_sx(rep['ctxinfos'][ci])} {tree_sx(parse_tree(e))})")
+            cidx.append((j, e, verdict))
+    bad_c = 0
+    for (j, e, verdict), mc in zip(cidx, mr.ask(creqs)):
+        chk.count('S1.parser.accepted' if verdict else 'S1.parser.rejected')
+        if target_kinds(e):
+            chk.count('S1.parser.binding_target')
+        if verdict is not (mc == '1'):
+            bad_c += 1
+            t2 = parse_tree(e)
+            shape = 'unparsable' if t2 is None else type(ast.parse(e, mode='eval').body).__name__
+            chk.violation(f'corr:check:parser:{shape}', f'while parsing with the constant {jobs[j]["literal"]!r} is_eval_safe({e!r}) = '
+                          f'{verdict} on the context built by the engine, the model says {mc == "1"}',
+                          {'correspondence': 'S1 parser', 'literal': jobs[j]['literal'], 'alert': jobs[j]['alert'], 'expr': e,
+                           'impl': verdict, 'model': mc == '1'})
+    chk.obligation('S1:check vs is_eval_safe on the contexts built by the engine (sub-AST objects)', 'correspondence',
+                   bad_c == 0 and len(cidx) >= 150 and chk.dist.get('S1.parser.binding_target', 0) >= 20,
+                   f"{bad_c} disagreement(s) over {len(cidx)} verdicts ({chk.dist.get('S1.parser.binding_target', 0)} with an "
+                   f'attribute / subscript in binding position)')
     chk.sample({'S3': jobs[3]['literal'], 'impl': replies[3].get('outcome'), 'value': replies[3].get('value')})
 
     # data-driven injection: the text being parsed reaches the evaluator through `{a}` (second-order evaluation)
@@ -1536,6 +1932,17 @@ def seq_problems(step: dict, rec: dict, semnames_all: set, vocab_all: set) -> li
                             f'foreign names {leaked[:8]}, own names lost {lost[:8]}, builtins missing {missing[:8]}',
                             {'call': call, 'leaked': leaked, 'lost': lost, 'missing': missing}))
                 break
+    # what an alert records is what constant() returned for its expression
+    if rec.get('outcome') == 'value' and len(calls) == len(g['corder']) and rec.get('alerts') is not None:
+        mask = lambda r: canon(r) if isinstance(r, list) and len(r) == 2 and isinstance(r[1], str) and r[0] != 'str' else r
+        want = [mask(call.get('res')) for (ri, c), call in zip(g['corder'], calls) if c['alert']]
+        got = [mask(m) for m in rec['alerts']]
+        if want != got:
+            k = next((i for i, (w, m) in enumerate(zip(want, got)) if w != m), min(len(want), len(got)))
+            lit = [c['lit'] for _, c in g['corder'] if c['alert']][k] if k < len(want) else None
+            out.append(('state:alert-message', f'the alerts of the parse record {got[k:k + 1]} for ^`{lit}`, constant() returned '
+                        f'{want[k:k + 1]} ({len(got)} recorded, {len(want)} evaluated)',
+                        {'literal': lit, 'recorded': got, 'evaluated': want}))
     exp = step['expected']
     if rec.get('outcome') == 'value' and len(calls) != len(exp):
         out.append(('state:constant-calls', f'{len(calls)} constants evaluated, the grammar runs {len(exp)}', {'calls': calls}))
@@ -1670,7 +2077,13 @@ def main():
                 'order): grammars of 1-3 rules (siblings / nested calls, a key bound between constants) over a small vocabulary of key '
                 'names incl. builtin spellings, 10 constant shapes over own keys / pure builtins / semantics functions / names bound '
                 'only elsewhere (other rule, other parse, other grammar, bootstrap grammar, walrus, detached semantics), constants and '
-                'alerts, same model re-parsed, same text recompiled, persistent safe_context() dicts. '
+                'alerts, same model re-parsed, same text recompiled, persistent safe_context() dicts; '
+                'every attribute name (harmless, dunder, blocked) in 52 syntactic positions of an attribute reference, 27 of them '
+                'binding positions (comprehension targets: plain, tuple / list / starred / nested patterns, second clause, inside '
+                'f-string fields and format specs, under subscripts), on a context with objects that have writable attributes and '
+                'on grammars with a sub-AST, random comprehension targets (name / attribute / subscript / pattern); texts in the '
+                'str.format field syntax (root x chain x conversion x spec, 12 frames) as constants and as alerts of level 1-3, '
+                'alert messages read from parseinfo.alerts. '
                 'Non-trivial: the expression parses / the loop made at least one oracle call; distinct by content hash.')
     chk.trusted += ['CPython audit events (open, exec, compile, import, builtins.input, os.*, subprocess.*) observed beneath a '
                     "frame of '<string>' code; sys.stdin replaced by a recorder (exit/quit close it)",
@@ -1678,6 +2091,10 @@ def main():
                     'S4: the expected value of a templated constant is computed by the harness (python len/max/min/sorted/str.upper on the '
                     'texts of the keys; ast.literal_eval for the final text; a text that could be an evaluable expression gets no expectation); '
                     'ParserEngine.constant / engine.is_eval_safe / engine.safe_eval are wrapped to record the AST keys and the context',
+                    'dunder-state snapshot of the objects reachable from a context (harness/props/c17.py: reachable / own_state: class, '
+                    'identity and dunder entries of __dict__, function __defaults__/__kwdefaults__/__code__/__name__/...), depth 3; '
+                    'alert messages are read from parseinfo.alerts of the result of model.parse(..., parseinfo=True) (S3) and from a '
+                    'wrapper around ParseStateStack.alert (S4)',
                     'reference evaluation eval(expr, ns, ns) with ns = context + empty __builtins__ (child interpreter, only for '
                     'expressions the checker accepted and that returned a value; reprs compared with addresses masked)',
                     'modelled: safeeval.safe_builtins / _check_safe_eval_cached / check_eval_context, engine.constant loop; the '
